@@ -11,7 +11,8 @@ the connections inside one instance.  Codes: 0 equal, 2 differ (tie broken), 3 h
 The module name, the unit's identity (domain, name, parameter strings, declaration) and the port directions are read
 from the implementation's package: they are inputs of the exporter the generators do not decide.
 """
-import json
+import json, os, subprocess
+from concurrent.futures import ThreadPoolExecutor
 from . import core, design as D
 from .core import cz, cstr, clist
 
@@ -22,6 +23,31 @@ WIDE_UNITS = [
     dict(kind="ext", name="E2w", ports=[["a", 2], ["b", 2], ["c", 1]], tag=1),
     dict(kind="ext", name="E3w", ports=[["x", 3], ["k", 1], ["y", 3], ["z", 3]], tag=1),
 ]
+
+
+def _limits():
+    import resource
+    resource.setrlimit(resource.RLIMIT_AS, (4 << 30, 4 << 30))
+
+
+def run_isolated(jobs, timeout=40):
+    """One fresh interpreter per job (with its `after` history), memory- and time-limited: a call that makes the implementation
+    hang, die or eat memory is a rejected call (stage `crash`), not a failure of the check."""
+    path = os.path.join(core.VERIF, "harness", "impl", "c19e.py")
+
+    def one(j):
+        try:
+            p = subprocess.run([core.PY, path], input=json.dumps(dict(jobs=[j])), capture_output=True, text=True,
+                               env=core.impl_env("0"), timeout=timeout, cwd="/", preexec_fn=_limits)
+            if p.returncode != 0:
+                raise RuntimeError(f"worker died rc={p.returncode}: " + (p.stderr.strip().splitlines() or [""])[-1][:160])
+            return json.loads(p.stdout.strip().splitlines()[-1])["results"][0]
+        except subprocess.TimeoutExpired:
+            return dict(pkg=None, err=dict(cls="WorkerDied", msg=f"no answer within {timeout} s"), stage="crash")
+        except Exception as e:
+            return dict(pkg=None, err=dict(cls="WorkerDied", msg=str(e)[:200]), stage="crash")
+    with ThreadPoolExecutor(max_workers=core.NPROC) as ex:
+        return list(ex.map(one, jobs))
 
 
 def leaf_case(c19, job, prims):
@@ -102,8 +128,10 @@ def run_tie(run, tier, seed, streams, prims):
     quick = tier == "quick"
     jobs, lcs, seen = [], [], set()
     shapes = shape_jobs()
+    shape_outs = run_isolated(shapes)
+    from_shape = {}
     for name, sj, _ in list(streams) + [("shapes", shapes, "")]:
-        for j in sj:
+        for pos, j in enumerate(sj):
             lc = leaf_case(c19, j, prims)
             if lc is None:
                 continue
@@ -113,6 +141,8 @@ def run_tie(run, tier, seed, streams, prims):
             seen.add(key)
             if not quick and lc[4] > 8 and len(seen) % 4 != 0:
                 continue                      # thorough tier: every n <= 8, every fourth of the larger stacks
+            if name == "shapes":
+                from_shape[len(jobs)] = pos
             jobs.append(j)
             lcs.append(lc)
     # bus-valued series ports (the C19 streams have none of equal width): every ordered pair of equally wide ports
@@ -125,12 +155,20 @@ def run_tie(run, tier, seed, streams, prims):
                         j = dict(gen="series", unit=u, conns=[["name", a], ["name", b]], nser=n)
                         jobs.append(j)
                         lcs.append((0, [tuple(p) for p in u["ports"]], a, b, n))
-    outs = core.run_worker_sharded("c19e", jobs)
+    plain = [k for k in range(len(jobs)) if k not in from_shape]
+    plain_outs = core.run_worker_sharded("c19", [jobs[k] for k in plain])
+    outs = [None] * len(jobs)
+    for k, o in zip(plain, plain_outs):
+        outs[k] = o
+    for k, pos in from_shape.items():
+        outs[k] = shape_outs[pos]            # run once, with their history, each in a process of its own
     cases, idx, early = [], [], []
     for k, (j, o, lc) in enumerate(zip(jobs, outs, lcs)):
         wide = lc[4] >= 2 and dict(lc[1])[lc[2]] > 1
         c = c_case(j, o, lc)
-        if c is None or (o["pkg"] is None and not wide):
+        dev = dev_of(j, o)
+        other_unit = dev is not None and dev[3] is not None and [(q[0], q[1]) for q in dev[3]["ports"]] != [tuple(q) for q in lc[1]]
+        if c is None or other_unit or (o["pkg"] is None and not wide):
             early.append(k)                   # a call the design model accepts, rejected by the implementation
             continue
         cases.append(c)
@@ -168,7 +206,8 @@ def run_tie(run, tier, seed, streams, prims):
             continue
         shown.add(grp)
         what = {2: "the package the pipeline model exports for the written design of the generated module (Model/C19EDesign.v) and the "
-                   "implementation's package differ (tie broken)" if outs[k]["pkg"] is not None else
+                   "implementation's package differ (tie broken; if the package declares another unit than the one given: see stream unit-shapes)"
+                   if outs[k]["pkg"] is not None else
                    "the implementation's verdict differs from the design model's: " + json.dumps(outs[k]["err"])[:200],
                 3: "case outside the hypotheses of Props/C19E.v (harness defect)",
                 4: "the pipeline model contradicts Props/C19E.v on this design (checker defect)"}.get(c, f"code {c}")
@@ -178,7 +217,7 @@ def run_tie(run, tier, seed, streams, prims):
                            theorem="Props/C19E.v:C19E_exported_topology; Corr/C19E.v:chk_c19e"), found_input=False)
     run.coverage["pipeline_tie"] = dict(cases=n, equal=sum(1 for k in range(n) if code.get(k, 0) == 0))
     run.coverage["traces_validated_against_impl"] = run.coverage.get("traces_validated_against_impl", 0) + n
-    run_shapes(run, tier, seed, shapes, prims)
+    run_shapes(run, tier, seed, shapes, shape_outs, prims)
 
 
 # ------------------------------------------------------------------------------------------ more unit shapes (stream `unit-shapes`)
@@ -251,9 +290,8 @@ def effective_unit(u):
     return dict(u, buns=buns)
 
 
-def run_shapes(run, tier, seed, jobs, prims):
+def run_shapes(run, tier, seed, jobs, outs, prims):
     from . import c19
-    outs = core.run_worker_sharded("c19e", jobs)
     cases = []
     for j, o in zip(jobs, outs):
         jc = {k: v for k, v in j.items() if k != "after"}
